@@ -20,6 +20,7 @@ type gen struct {
 	budget    int
 	paren     int  // nesting depth of ( ) while generating
 	arithIn   bool // a (( )) command was generated inside parentheses
+	inSeq     int  // nesting of seq calls (0: top level)
 }
 
 // leafWord returns a fresh two-character word: the generator's symbolic word
@@ -281,6 +282,9 @@ func asAndOr(s string, isAO bool) string {
 // []Command the parser builds for it. terminated: the text must end with a
 // separator (it is followed by a reserved word such as then, do, fi, }).
 func (g *gen) seq(d int, terminated bool) (string, string) {
+	top := g.inSeq == 0
+	g.inSeq++
+	defer func() { g.inSeq-- }()
 	n := 1 + g.pick(2)
 	t1, s1, a1 := g.item(d)
 	if n == 1 {
@@ -311,6 +315,16 @@ func (g *gen) seq(d int, terminated bool) (string, string) {
 		if sep1 == "&" {
 			x1 = withSep(s1, a1, "&")
 			tt1 = t1 + " &"
+			if !top {
+				// inside a compound command "a &<newline>b" is one list
+				// (separator_op linebreak), as "a & b" is; at top level the
+				// first call ends at the newline
+				x := "[(list " + x1 + " " + asAndOr(s2, a2) + ")]"
+				if terminated {
+					return "\n" + tt1 + "\n" + t2 + "\n", x
+				}
+				return tt1 + "\n" + t2, x
+			}
 		}
 		if terminated {
 			return "\n" + tt1 + "\n" + t2 + "\n", "[" + x1 + " " + s2 + "]"
